@@ -95,6 +95,21 @@ def variants(s: TStr, limit: int = 512) -> List[Tuple[Dict[str, bool], TStr]]:
     return out
 
 
+def variants_over(s: TStr, focus: Tuple[str, ...]) -> List[Tuple[Dict[str, bool], TStr]]:
+    """All combinations of the conditions that mention one of the `focus` names; every other condition False."""
+    atoms: Dict[str, Cond] = {}
+    for c in conds_of(s).values():
+        atoms_of(c, atoms)
+    keys = sorted(atoms)
+    fk = [k for k in keys if any(f in k for f in focus)]
+    out = []
+    for bits in itertools.product([False, True], repeat=len(fk)):
+        ch = {k: False for k in keys}
+        ch.update(zip(fk, bits))
+        out.append((ch, resolve(s, ch)))
+    return out
+
+
 def hole_names(s: TStr, into_reps: bool = True) -> List[Tuple[str, Sym]]:
     out = []
     for p in s.parts:
@@ -240,6 +255,36 @@ def check(ctx):
             for label, t in (('declaration', d), ('definition', f)):
                 if not any(n == 'return_type' for n, _s in hole_names(t)):
                     problems.append(f'{label} does not render the return type')
+        if cname == 'Function':
+            # the declarator of a member function: `(params) <cv-qualifiers> <override> <= initialisation>;` in that order - a
+            # virt-specifier in front of the cv-qualifier is ill-formed, and the cv-qualifier belongs to the function type that
+            # the definition has to repeat
+            for c, v in variants_over(d, ('self.cav>', 'self.override>', 'self.initialization>')):
+                toks = lex(v)
+                txt = [tok_text(x) for x in toks]
+                depth_, close = 0, None
+                for i_, t_ in enumerate(txt):
+                    if t_ == '(':
+                        depth_ += 1
+                    elif t_ == ')':
+                        depth_ -= 1
+                        if depth_ == 0 and close is None:
+                            close = i_
+                # positions in the flat text (an identifier directly followed by a hole is one token for the lexer)
+                flat = ' '.join(txt)
+                close = flat.find(')', flat.find('self.params')) if 'self.params' in flat else (None if close is None else flat.find(')'))
+                close = None if close is None or close < 0 else close
+                i_cav = flat.find('self.cav}') if 'self.cav}' in flat else None
+                i_ov = flat.find('override') if 'override' in flat else None
+                i_eq = flat.find('=', close or 0) if close is not None and flat.find('=', close) >= 0 else None
+                order = [x for x in (i_cav, i_ov, i_eq) if x is not None]
+                if close is None or any(x < close for x in order) or order != sorted(order):
+                    names_ = [n_ for n_, x in (('cv-qualifier', i_cav), ('override', i_ov), ('= initialisation', i_eq)) if x is not None]
+                    got_ = [n_ for _x, n_ in sorted((x, n_) for n_, x in (('cv-qualifier', i_cav), ('override', i_ov), ('= initialisation', i_eq))
+                                                    if x is not None)]
+                    problems.append(f'the declaration renders its trailing parts as {got_} (after the parameter list they have to come as '
+                                    f'{names_}): `{" ".join(txt)[:80]}`')
+                    break
         run.add('C20.same-entity', MOD, cname, f'{cname}: as_decl / as_def', not problems,
                 'declaration and definition denote the same entity (name, ordered parameters, cv)' if not problems else
                 '; '.join(sorted(set(problems))))
